@@ -34,6 +34,7 @@ pub type LehmerMatrix = Matrix;
 impl Matrix {
 //@ import lehmer IDENTITY
 //@ import lehmer apply
+//@ import lehmer from
 }
 
 //@ extract src/algorithms/gcd/mod.rs fn gcd consts=IDENTITY cprefix=LehmerMatrix
